@@ -36,6 +36,8 @@ INNER2 == Struct(<<Fld(n_attr, "attr", STR), Fld(n_c, "elem", Opt(INNER3))>>)
 INNER1 == Struct(<<Fld(n_attr, "attr", STR), Fld(n_c, "elem", Opt(INNER2))>>)
 n_items == <<105,116,101,109,115>>  n_Name == <<78,97,109,101>>  n_Num == <<78,117,109>>
 CHOICE3 == [t |-> "enum", variants |-> <<Var(n_One, "unit", STR), Var(n_Name, "newtype", STR), Var(n_Num, "newtype", NUM), Var(n_text, "text", STR)>>]
+n_n == <<110>>
+NODE2 == Struct(<<Fld(n_a, "elem", List(STR)), Fld(n_b, "elem", List(STR))>>)
 NEST == Struct(<<Fld(n_a, "elem", List(STR))>>)
 
 TypeOf(name) ==
@@ -57,6 +59,7 @@ TypeOf(name) ==
       [] name = "F23" -> Struct(<<Fld(n_a, "elem", List(STR)), Fld(n_b, "elem", List(NEST)), Fld(n_d, "elem", List(NUM))>>)
       [] name = "F24" -> Struct(<<Fld(n_items, "attr", SList(STR)), Fld(n_one, "attr", STR)>>)
       [] name = "F25" -> Struct(<<Fld(n_value, "value", List(CHOICE3))>>)
+      [] name = "F26" -> Struct(<<Fld(n_a, "elem", List(NODE2)), Fld(n_n, "elem", STR), Fld(n_b, "elem", List(STR))>>)
       [] name = "H01" -> Struct(<<Fld(n_m, "elem", [t |-> "map"])>>)
       [] OTHER -> [t |-> "unknown"]       \* outside the schema language: the model has no opinion (SerTree = Fail)
 RootBytes(name) ==
@@ -78,6 +81,7 @@ RootBytes(name) ==
       [] name = "F23" -> <<70,50,51>>
       [] name = "F24" -> <<70,50,52>>
       [] name = "F25" -> <<70,50,53>>
+      [] name = "F26" -> <<70,50,54>>
       [] name = "H01" -> <<72,48,49>>
       [] name = "H02" -> <<72,48,50>>
       [] name = "H05" -> <<72,48,53>>
@@ -147,6 +151,9 @@ ValuesOf(name, Pl, mode) ==       \* mode "rt": the documented round-trippable d
             LET C3 == {[u |-> n_One]} \cup {[v |-> n_Name, x |-> S(s)] : s \in {<<>>, <<97>>, <<60>>}}
                       \cup {[v |-> n_Num, x |-> Nm(<<55>>)]} \cup {[v |-> n_text, x |-> S(s)] : s \in {<<97>>, <<38>>}} IN
             {O(<<<<n_value, A(xs)>>>>) : xs \in {y \in Seqs(C3, 3) : mode = "all" \/ NoAdjacentText(y)}}
+      [] name = "F26" ->
+            LET N2 == {O(<<<<n_a, A(xs)>>, <<n_b, A(ys)>>>>) : xs \in Seqs({S(<<97>>)}, 1), ys \in Seqs({S(<<60>>)}, 2)} IN
+            {O(<<<<n_a, A(xs)>>, <<n_n, S(<<97>>)>>, <<n_b, A(ys)>>>>) : xs \in Seqs(N2, 2), ys \in Seqs({S(<<98>>)}, 2)}
       [] name = "H01" -> {O(<<<<n_m, O(ps)>>>>) : ps \in {<<<<k, S(<<97>>)>>>> : k \in {<<>>, <<60>>, <<97, 32, 98>>, <<49, 97>>, <<97>>, <<97, 62>>, <<195, 169>>, <<45, 97>>}}}
       \* outside the schema language (C13 only): Option without skip, nested sequences, unit variants named like markup
       [] name = "H02" -> {O(<<<<<<111>>, x>>, <<<<110>>, A(ys)>>>>) : x \in {None, S(<<60>>)},
@@ -159,5 +166,5 @@ ValuesOf(name, Pl, mode) ==       \* mode "rt": the documented round-trippable d
 \* root tags passed to the serializer (to_string_with_root); the default is the type name
 HostileRoots == { <<>>, <<60>>, <<97, 32, 98>>, <<49, 97>>, <<97, 62>>, <<195, 169>>, <<120, 58, 121>>, <<45, 97>>, <<114>> }
 
-RTTypes == {"F01", "F02", "F03", "F04", "F05", "F07", "F08", "F11", "F15", "F16", "F17", "F18", "F19", "F20", "F22", "F23", "F24", "F25"}
+RTTypes == {"F01", "F02", "F03", "F04", "F05", "F07", "F08", "F11", "F15", "F16", "F17", "F18", "F19", "F20", "F22", "F23", "F24", "F25", "F26"}
 =============================================================================
